@@ -68,6 +68,11 @@ def case_body(case):
     if op in ("eq", "ne", "lt", "le", "gt", "ge"):
         sym = {"eq": "==", "ne": "!=", "lt": "<", "le": "<=", "gt": ">", "ge": ">="}[op]
         return 'format!("B {}", %s %s %s)' % (qty_expr(case, t[0], a[0], u[0]), sym, qty_expr(case, t[0], a[1], u[1]))
+    if op == "cmp_all":
+        x = qty_expr(case, t[0], a[0], u[0])
+        y = qty_expr(case, t[0], a[1], u[1])
+        return ('{ let x = %s; let y = %s; format!("C {} {} {} {} {} {} {:?} {} {} {} {} {} {} {:?}", x == y, x != y, x < y, x <= y, x > y, x >= y, '
+                'PartialOrd::partial_cmp(&x, &y), y == x, y != x, y < x, y <= x, y > x, y >= x, PartialOrd::partial_cmp(&y, &x)) }' % (x, y))
     if op == "partial_cmp":
         return 'format!("O {:?}", PartialOrd::partial_cmp(&%s, &%s))' % (qty_expr(case, t[0], a[0], u[0]), qty_expr(case, t[0], a[1], u[1]))
     if op in ("add", "sub"):
